@@ -45,6 +45,18 @@ TQCCase(S, G2, corr) ==      \* G2 \subseteq S : signers of the second group (re
 PrintTQC == \A S \in SUBSET Validators : \A G2 \in SUBSET S : \A corr \in TCorr :
                PrintT(<<"CASE", ToJson(TQCCase(S, G2, corr))>>)
 
+(* ---- timeout certificates with THREE groups and arbitrary (also overlapping, also non-adjacent) memberships: every validator ---- *)
+(* ---- signs any subset of the three reports; every (validator, report) signature is genuine                                ---- *)
+TQC3Case(memb) ==
+    LET m1 == [view |-> 3, g |-> TRUE, hv |-> NoVote, hvg |-> TRUE, hq |-> NoCQC]
+        m2 == [m1 EXCEPT !.hv = V1, !.hq = NestedQC("none")]
+        m3 == [m1 EXCEPT !.hv = Vprev]
+        grp(i, m) == [msg |-> m, signers |-> {v \in Validators : i \in memb[v]}, len |-> N]
+        groups == SelectSeq(<<grp(1, m1), grp(2, m2), grp(3, m3)>>, LAMBDA gr : gr.signers # {})
+        t == [view |-> 3, g |-> TRUE, groups |-> groups, sig |-> TRUE]
+    IN [kind |-> "tqc3", memb |-> [v \in 1..N |-> memb[v]], ngroups |-> Len(groups), valid |-> TimeoutQCValid(t)]
+PrintTQC3 == \A memb \in [Validators -> SUBSET {1, 2, 3}] : PrintT(<<"CASE", ToJson(TQC3Case(memb))>>)
+
 (* ---- incremental assembly: all sequences of <= MaxAdds adds from the alphabet below ---- *)
 AddKinds == {"ok", "nonmember", "othervote", "badsig", "genesis"}
 AddMsg(from, k) == [from |-> IF k = "nonmember" THEN 0 ELSE from,
@@ -64,6 +76,7 @@ PrintAdds(n) == \A seq \in AddSeqs(n) : PrintT(<<"CASE", ToJson(AddCase(seq))>>)
 
 ASSUME Mode = "cqc" => PrintCQC
 ASSUME Mode = "tqc" => PrintTQC
+ASSUME Mode = "tqc3" => PrintTQC3
 ASSUME Mode = "add3" => PrintAdds(3)
 ASSUME Mode = "add2" => PrintAdds(2)
 VARIABLE x
